@@ -474,7 +474,8 @@ class UTPM(Ring, RawAlgorithmsMixIn):
         # log in (at least) double precision, also for python ints of any size and for
         # bases of a narrow numpy type (uint8, float16, float32, ...)
         if not numpy.iscomplexobj(r):
-            r = numpy.asarray(r, dtype=float)
+            # (complex when the exponent is: the real logarithm of a negative base is nan)
+            r = numpy.asarray(r, dtype=complex if numpy.iscomplexobj(self.data) else float)
         return UTPM.exp(numpy.log(r)*self)
 
 
